@@ -271,6 +271,33 @@ def setCookieHeader (name v : Bytes) : Bytes := cookieString name (queryEscape v
     as the `Cookie` header -/
 def clientEcho (setCookie : Bytes) : Bytes := (cut semicolon setCookie).1
 
+/-- several `SetCookie` calls on ONE response: `Header().Add("Set-Cookie", …)` appends, so the response
+    carries one `Set-Cookie` line per call, in call order -/
+def setCookies (writes : List (Bytes × Bytes)) : List Bytes :=
+  writes.map fun w => setCookieHeader w.1 w.2
+
+/-- the user agent's cookie store processing one `Set-Cookie` line: an empty line is ignored; the cookie's
+    name is what precedes the first `=`; a cookie of an EQUAL name replaces the stored one (RFC 6265 §5.3
+    step 11 — the last one wins), any other name is a new entry -/
+def jarPut (jar : List (Bytes × Bytes)) (line : Bytes) : List (Bytes × Bytes) :=
+  let nv := clientEcho line
+  if nv.isEmpty then jar else
+  let name := (cut eqSign nv).1
+  if jar.any (fun e => e.1 == name) then jar.map (fun e => if e.1 == name then (name, nv) else e)
+  else jar ++ [(name, nv)]
+
+def clientJar (setCookieLines : List Bytes) : List (Bytes × Bytes) := setCookieLines.foldl jarPut []
+
+/-- `name=value` pairs joined with `"; "` -/
+def joinCookies : List Bytes → Bytes
+  | [] => []
+  | [c] => c
+  | c :: cs => c ++ semicolon :: space :: joinCookies cs
+
+/-- the one `Cookie` header line the user agent sends on the next request -/
+def clientCookieHeader (setCookieLines : List Bytes) : Bytes :=
+  joinCookies ((clientJar setCookieLines).map (·.2))
+
 /-- what `url.QueryUnescape` makes of a stored cookie value, the raw value when it fails -/
 def unescapeOrRaw (v : Bytes) : Bytes := (queryUnescape v).getD v
 
